@@ -32,7 +32,7 @@ def configs(tier, seed):
             continue
         out.append(('op/' + r.name, dict(kind='op', recipe=r.name)))
     # functionals are operators too: the call protocol of f, f.gradient and f.proximal(sigma)
-    for cid, rn, sk in funcs.instances(tier):
+    for cid, rn, sk in funcs.instances(tier, harness='C03'):
         out.append(('fun/' + cid, dict(kind='fun', recipe=rn, sk=sk, _settings={'max_paths': 1500, 'merge_abs': True})))
     # operators without a symbolic meaning (finite-difference approximations): the protocol on concrete floats,
     # compared bit for bit (concrete facts)
